@@ -271,7 +271,12 @@ func (c *FnCtx) obligation(st *State, kind, clause, goal string, pos token.Pos) 
 	return o
 }
 
-func (c *FnCtx) fnName() string { return c.eng.funcName(c.fn) }
+func (c *FnCtx) fnName() string {
+	if c.mode == "INT" && c.spec != nil && c.spec.Mode == "BOTH" {
+		return c.eng.funcName(c.fn) + "@INT" // the interference-mode run of a contract verified in both modes
+	}
+	return c.eng.funcName(c.fn)
+}
 
 func (c *FnCtx) assume(st *State, cond string) {
 	c.sc.Assume(Implies(st.guard, cond))
@@ -921,6 +926,9 @@ func (c *FnCtx) loopHead(fr *Frame, li *loopInfo, st *State) {
 	// 1. invariants hold on entry
 	if li.spec != nil {
 		for k, inv := range li.spec.Invariants {
+			if inv.Mode != "" && inv.Mode != c.mode {
+				continue
+			}
 			env := c.loopEnv(fr, li, nil)
 			env.st, env.old = st, fr.entry
 			g := c.evalBool(env, inv.E)
@@ -974,6 +982,9 @@ func (c *FnCtx) loopHead(fr *Frame, li *loopInfo, st *State) {
 	// 3. assume invariants
 	if li.spec != nil {
 		for _, inv := range li.spec.Invariants {
+			if inv.Mode != "" && inv.Mode != c.mode {
+				continue
+			}
 			env := c.loopEnv(fr, li, nil)
 			env.st, env.old = st, fr.entry
 			c.assume(st, c.evalBool(env, inv.E))
@@ -1014,6 +1025,9 @@ func (c *FnCtx) loopBack(fr *Frame, li *loopInfo, st *State, predIdx int) {
 		override[p] = c.val(fr, p.Edges[predIdx])
 	}
 	for k, inv := range li.spec.Invariants {
+		if inv.Mode != "" && inv.Mode != c.mode {
+			continue
+		}
 		env := c.loopEnv(fr, li, override)
 		env.st, env.old = st, fr.entry
 		g := c.evalBool(env, inv.E)
@@ -1363,8 +1377,10 @@ func (c *FnCtx) fieldCallback(v ssa.Value) *CallbackSpec {
 func (c *FnCtx) cbGhostMods(m *modSet) {
 	m.comps[c.cbCallsComp()] = true
 	m.comps[c.comp("ghost$cbfn", "(Array Int Int)")] = true
+	m.comps[c.comp("ghost$cblock", "(Array Int (Array Int Int))")] = true
+	m.comps[c.comp("ghost$cblockgen", "(Array Int (Array Int Int))")] = true
 	for _, k := range c.eng.compOrder {
-		if strings.HasPrefix(k, "ghost$cbres$") {
+		if strings.HasPrefix(k, "ghost$cbres$") || strings.HasPrefix(k, "ghost$cbarg$") {
 			m.comps[k] = true
 		}
 	}
